@@ -85,7 +85,7 @@ struct Elem {
     int coord = PLAIN;
     int tag = 0;       // 0: (0,0); 1: (32767,32767)
     int xf = 0;        // paths: index into xf_names, the transformation applied to the path object before it is saved
-    int off = 0;       // simple paths: 1 = the single element has a non-zero offset from the spine
+    int off = 0;       // simple paths: offset of the single element from the spine: 0 none, 1: +10.3, 2: -10.3, 3: +7.7, 4: -7.7 millis
 };
 struct LibSpec {
     int libcfg = 0;   // index into lib_units
@@ -126,7 +126,7 @@ inline std::string describe(const Elem& e) {
     if (e.kind == LABEL || e.kind == REFERENCE) { f.push_back({"rotation", jstr(rot_names[e.rot])}); f.push_back({"magnification", jnum(mag_value(e))}); f.push_back({"x_reflection", jbool(e.refl)}); }
     if (e.kind == REFERENCE) f.push_back({"target", jstr(e.target ? "absent cell by name" : "cell of the library by pointer")});
     if (e.kind >= FLEX_SIMPLE && e.kind <= ROBUST_OUTLINE && e.xf) f.push_back({"transformed_by", jstr(xf_names[e.xf])});
-    if ((e.kind == FLEX_SIMPLE || e.kind == ROBUST_SIMPLE) && e.off) f.push_back({"element_offset", jstr("non-zero")});
+    if ((e.kind == FLEX_SIMPLE || e.kind == ROBUST_SIMPLE) && e.off) f.push_back({"element_offset", jstr(e.off == 1 ? "+10.3 millis" : e.off == 2 ? "-10.3 millis" : e.off == 3 ? "+7.7 millis" : "-7.7 millis")});
     f.push_back({"coordinates", jstr(coord_names[e.coord])});
     if (e.kind != REFERENCE) f.push_back({"tag", jstr(e.tag ? "32767/32767" : "0/0")});
     return jobj(f);
@@ -295,6 +295,11 @@ static const int spine3[][2] = {{0, 0}, {40, 0}, {40, 30}};
 // (4 millis per step in x, alternating 0 / 8 millis in y) long enough to need several XY records (> 8190 points)
 inline Vec2 spine_point(const Frame& f, int n, int i) {
     if (n >= 1000) return f.pt(4 * i, 8 * (i % 2));
+    // 5 points: Manhattan staircase with left and right turns; 6 points: oblique joints (acute and obtuse, both turn directions)
+    static const int manhattan5[][2] = {{0, 0}, {40, 0}, {40, 30}, {80, 30}, {80, -10}};
+    static const int oblique6[][2] = {{0, 0}, {30, 40}, {70, 45}, {90, 10}, {130, 30}, {150, 80}};
+    if (n == 5) return f.pt(manhattan5[i][0], manhattan5[i][1]);
+    if (n == 6) return f.pt(oblique6[i][0], oblique6[i][1]);
     const int(*sp)[2] = n == 2 ? spine2 : spine3;
     return f.pt(sp[i][0], sp[i][1]);
 }
@@ -342,7 +347,7 @@ inline void add_element(Cell* cell, Cell* kid, const Elem& e, const LibSpec& s) 
             FlexPath* fp = (FlexPath*)allocate_clear(sizeof(FlexPath));
             const double tol = 1e-5;
             if (e.kind == FLEX_SIMPLE) {
-                double w1 = f.coord == HALF ? f.len(2) : f.len(8), o1 = e.off ? (f.coord == HALF ? f.len(12) : 0.0103) : 0;  // 10.3 millis: derived centre-line coordinates stay away from half grid steps
+                double w1 = f.coord == HALF ? f.len(2) : f.len(8), o1 = e.off ? (f.coord == HALF ? f.len(12) : e.off == 1 ? 0.0103 : e.off == 2 ? -0.0103 : e.off == 3 ? 0.0077 : -0.0077) : 0;  // 10.3 / 7.7 millis: derived centre-line coordinates stay away from half grid steps
                 Tag t1 = tag_of(e);
                 fp->init(spine_point(f, e.n, 0), 1, &w1, &o1, tol, &t1);
                 fp->simple_path = true;
@@ -368,7 +373,7 @@ inline void add_element(Cell* cell, Cell* kid, const Elem& e, const LibSpec& s) 
             RobustPath* rp = (RobustPath*)allocate_clear(sizeof(RobustPath));
             const double tol = 1e-5;
             if (e.kind == ROBUST_SIMPLE) {
-                double w1 = f.coord == HALF ? f.len(2) : f.len(8), o1 = e.off ? (f.coord == HALF ? f.len(12) : 0.0103) : 0;  // 10.3 millis: derived centre-line coordinates stay away from half grid steps
+                double w1 = f.coord == HALF ? f.len(2) : f.len(8), o1 = e.off ? (f.coord == HALF ? f.len(12) : e.off == 1 ? 0.0103 : e.off == 2 ? -0.0103 : e.off == 3 ? 0.0077 : -0.0077) : 0;  // 10.3 / 7.7 millis: derived centre-line coordinates stay away from half grid steps
                 Tag t1 = tag_of(e);
                 rp->init(spine_point(f, e.n, 0), 1, &w1, &o1, tol, 1000, &t1);
                 rp->simple_path = true;
@@ -483,6 +488,11 @@ inline const std::vector<Family>& families() {
         {"library.real8", POLYGON, {"libcfgx", "coord2", "elemvar"}, {6, 2, 7}},
         // general properties mixed with GDSII properties in every order of 2-3 entries, on every element kind
         {"properties.mixed", POLYGON, {"propsmix", "elemvar9"}, {11, 9}},
+        // simple paths with a non-zero element offset (both signs, two magnitudes) over spines with several
+        // non-collinear interior joints (Manhattan 5 points, oblique 6 points): the centre line that is saved is the
+        // spine displaced by the offset with mitre joints
+        {"flexpath.simple.offset.joints", FLEX_SIMPLE, {"libcfg", "xf3", "end2", "n56", "off4"}, {4, 3, 2, 2, 4}},
+        {"robustpath.simple.offset.joints", ROBUST_SIMPLE, {"libcfg", "xf3", "end2", "n56", "off4"}, {4, 3, 2, 2, 4}},
     };
     return F;
 }
@@ -548,6 +558,9 @@ inline LibSpec decode(const Family& fam, int64_t idx, bool heavy) {
         }
         else if (d == "xf") { e.xf = x + 1; e.sw = xf_scale_width[e.xf]; }
         else if (d == "off") e.off = x;
+        else if (d == "off4") e.off = 1 + x;
+        else if (d == "n56") e.n = 5 + x;
+        else if (d == "xf3") { e.xf = x == 0 ? 0 : x == 1 ? 5 : 3; if (e.xf) e.sw = xf_scale_width[e.xf]; }  // as built, rotated by 0.6, mirrored
         else if (d == "end2") e.end = x ? 2 : 0;  // flush, extended
     }
     if (repeated_label) e.anchor = 4;
